@@ -105,6 +105,23 @@ def copy_carries(c):
     c.replay("code", code=REPLAY)
 
 
+# ---- coupling, for the for tag as a VC: whenever ForNode renders its block, the context's
+# ---- iteration product is the caller's product times the number of items being visited
+
+from contracts.C13 import _for_node  # noqa: E402
+
+
+def _for_block_measure(eng, st, ctx, items):
+    from pyvc.exec import Obligation
+
+    carry = st.deref(ctx).fields["loop_iteration_carry"].t
+    eng.obligations.append(Obligation("callee-pre", "block-render:iteration-product-is-the-callers-product-times-the-number-of-items", list(st.pc), M(st, ctx) == carry * z3.Length(items), "ForNode loop body"))
+
+
+for _sfx in ("", "_async"):
+    _for_node(_sfx, False, prop="C06", at_block_render=_for_block_measure)
+
+
 # ---- coupling: every repeating construct pushes its length (call-site obligations) --------
 
 RENDER_CALLS = {"render", "render_async", "render_with_context", "render_with_context_async"}
